@@ -1,5 +1,39 @@
-(* STUB: Spec layer for rsdp -- to be written *)
-From Coq Require Import NArith List.
-From ACPI Require Import Lib.Bytes Lib.Sx Spec.Layout.
+(* Spec layer for the RSDP (ACPI 6.5 5.2.5.3), written from SPEC_NOTES.md A.1 (36 bytes, no standard header):
+   0+8 "RSD PTR ", 8+1 Checksum (first 20 bytes sum to 0), 9+6 OEMID, 15+1 Revision=2, 16+4 RsdtAddress=0, 20+4 Length=36,
+   24+8 XsdtAddress, 32+1 ExtendedChecksum (all 36 bytes sum to 0), 33+3 reserved.  Both checksums are computed from content.
+   Case vocabulary (shared with the harness, component 30):
+     ctor  (oem6 xsdt_addr)          Rsdp::new(oem_id, xsdt_addr: u64)
+     ops   none (observations only) *)
+From Coq Require Import NArith List Bool.
+From ACPI Require Import Lib.Bytes Lib.Sx Spec.Layout Spec.FixedS.
 Import ListNotations.
-Definition rsdp_spec : tspec := null_spec.
+Open Scope N_scope.
+
+Definition rsdp_lay (oem : list N) (xsdt cks ext : N) : option (list N) :=
+  lay 36 (LB 0 [82; 83; 68; 32; 80; 84; 82; 32] ++ [L 8 1 cks] ++ LB 9 oem ++
+          [L 15 1 2; L 16 4 0; L 20 4 36; L 24 8 xsdt; L 32 1 ext; L 33 3 0]).
+
+Definition neg8 (s : N) : N := (256 - s mod 256) mod 256.
+
+Definition rsdp_ref (ctor : sx) : option (list N) :=
+  match ctor with
+  | SL [o; SA xsdt] =>
+      match sx_bytes o with
+      | Some oem =>
+          if Nat.eqb (length oem) 6 then
+            match rsdp_lay oem xsdt 0 0 with
+            | Some i0 =>
+                let cks := neg8 (sumN (firstn 20 i0)) in
+                match rsdp_lay oem xsdt cks 0 with
+                | Some i1 => rsdp_lay oem xsdt cks (neg8 (sumN i1))
+                | None => None
+                end
+            | None => None
+            end
+          else None
+      | None => None
+      end
+  | _ => None
+  end.
+
+Definition rsdp_spec : tspec := fixed_spec (ctor_only rsdp_ref).
